@@ -14,13 +14,13 @@ from ..core import MachineryError
 NOBJ = 4
 NOVAL = 4
 NONE = 1000
-EXPRS = ["csnap", "chv", "d.items", "kids:items.value", "value", "child.value", "child:value", "child.child.value", "kids.items.value", "kids:items:value",
+EXPRS = ["csnap", "chv", "cfirst", "dlsnap", "d.items", "kids:items.value", "value", "child.value", "child:value", "child.child.value", "kids.items.value", "kids:items:value",
          "child.kids.items.value", "[child,kids.items].value", "kids.items.child.value", "d.items.value",
          "child.d:items.value", "+tracked.value", "+tracked:kids.items", "+ltracked:items.value", "child.*", "kids.items",
          "child", "s.items.value", "s.items", "child.s:items.value", "dl.items.items.value", "dl.items.items"]
 NH = 3
 XTRAIT = [None]      # ONE CTrait object handed to add_trait for every object that has no donor yet
-LINK_MUTS = ("child", "kidsassign", "kids", "dassign", "d", "sassign", "s", "dlassign", "dl", "dlin")
+LINK_MUTS = ("child", "kidsassign", "kids", "dassign", "d", "sassign", "s", "dlassign", "dl", "dlin", "del")
 
 
 def _api():
@@ -174,7 +174,7 @@ class Pool(object):
         tot = []
         for k in range(1, NOBJ + 1):
             o = self.objs[k]
-            for n in ("child", "kids", "d", "value", "trait_added", "kids_items", "d_items", "csnap", "chv", "s", "dl",
+            for n in ("child", "kids", "d", "value", "trait_added", "kids_items", "d_items", "csnap", "chv", "cfirst", "dlsnap", "s", "dl",
                       "s_items", "dl_items", "extra"):
                 t = o._trait(n, 0)
                 tot.append(count(t._notifiers(False)) if t is not None else 0)
@@ -195,6 +195,10 @@ class Pool(object):
         runs = oc.RUNS.get(key, 0) - before
         if p == "csnap":
             ret = [[a, b] for a, b in v]
+        elif p == "cfirst":
+            ret = [-2] if v is None else [v]
+        elif p == "dlsnap":
+            ret = [[k, list(q)] for k, q in v]
         else:
             ret = list(v)
         return ret, runs
@@ -226,7 +230,7 @@ class Pool(object):
         for h in range(1, NH + 1):
             own = self.regs.get(h, [""])[0]
             out.append([ev for ev in self.log[h]
-                        if not (ev[0] == "trait" and ev[2] in ("csnap", "chv", "w", "tokn", "trait_modified") and ev[2] != own)])
+                        if not (ev[0] == "trait" and ev[2] in ("csnap", "chv", "cfirst", "dlsnap", "w", "tokn", "trait_modified") and ev[2] != own)])
         return out
 
     def probe(self):
@@ -244,7 +248,7 @@ class Pool(object):
                 # are not what the probe asks about
                 own = self.regs.get(h, [""])[0]
                 counts[h][k - 1] = sum(1 for ev in self.log[h]
-                                       if ev == ["trait", k, "value"] or (own in ("csnap", "chv") and ev[2] == own))
+                                       if ev == ["trait", k, "value"] or (own in ("csnap", "chv", "cfirst", "dlsnap") and ev[2] == own))
         self.clear_logs()
         return [counts[h] for h in range(1, NH + 1)]
 
@@ -396,6 +400,8 @@ def apply_mut(pool, m):
             l.reverse()
         else:
             raise MachineryError(op)
+    elif t == "del":
+        delattr(x, op)
     elif t == "addx":
         donors = [o for o in pool.objs[1:] if "extra" in o._instance_traits()]
         if donors:
@@ -478,8 +484,10 @@ def random_mut(rnd, heap, allow_loop):
         elif op == "pop":
             a = [rnd.choice([1, 2, 3]), 1, 0]
         m.update(t="d", op=op, a=a, ps=ps)
-    elif u < 0.9:
+    elif u < 0.88:
         m.update(t="value", x=rnd.randint(1, NOBJ - 1))
+    elif u < 0.915:
+        m.update(t="del", op=rnd.choice(["child", "kids", "kids", "d", "s", "dl"]))
     else:
         m = random_mut2(rnd, heap, m, x, ro)
     return m
@@ -600,7 +608,7 @@ def run_history(rnd, steps, t, p_loop=0.0):
             continue
         if 0.90 < u <= 0.985:
             # C12: read an observed property of the root
-            p = rnd.choice(["csnap", "csnap", "chv"])
+            p = rnd.choice(["csnap", "csnap", "chv", "cfirst", "cfirst", "dlsnap", "dlsnap"])
             m = {"t": "read", "h": 0, "e": p, "op": "", "x": 1, "a": [0, 0, 0], "xs": [], "ps": []}
             try:
                 ret, runs = pool.read_prop(p)
@@ -749,7 +757,7 @@ def case_records(kind, pre, m, t):
     m = dict(m, h=0, e="")
 
     def read(step):
-        p = "csnap"
+        p = "dlsnap" if kind == "dl" else "csnap"
         rm = dict(blank, t="read", e=p)
         pre_h = pool.heap()
         try:
@@ -768,7 +776,7 @@ def case_records(kind, pre, m, t):
     def mut(step, mm):
         pool.muts.append((pool.heap(), mm))
         return step_record(pool, t, step, mm, lambda: apply_mut(pool, mm))
-    reads = WITH_READS[0] and kind in ("list", "dict")
+    reads = WITH_READS[0] and kind in ("list", "dict", "dl")
     if kind == "dyn":
         out = [mut(1, dict(blank, t="addx", x=k, a=[0, 0, 0])) for k in m["xs"]]
         out.append(mut(2, dict(blank, t="child", a=[5 - pre[0], 0, 0])))          # the other object becomes the child
@@ -777,6 +785,11 @@ def case_records(kind, pre, m, t):
     out = ([read(0)] if reads else []) + [mut(1, m)]
     if out[-1]["exc"] and out[-1]["exc"] not in ("IndexError", "KeyError", "ValueError"):
         return out
+    if m["t"] == "del":
+        # the attribute is back at a fresh default container: that one must be hooked now - fill it
+        fill = {"list": dict(blank, t="kids", op="append", xs=[2]), "dict": dict(blank, t="d", op="setitem", a=[1, 2, 0]),
+                "set": dict(blank, t="s", op="add", a=[2, 0, 0]), "dl": dict(blank, t="dl", op="setitem", a=[1, 0, 0, 0], xs=[2])}[kind]
+        out.append(mut(2, fill))
     if reads:
         if kind == "list" and root.kids:
             out.append(mut(2, dict(blank, t="kids", op="pop", a=[NONE, 0, 0])))
@@ -787,6 +800,8 @@ def case_records(kind, pre, m, t):
         out.append(read(3))
     for fm in follow:
         out.append(mut(3, fm))
+    if reads and follow:
+        out.append(read(4))
     out.append(mut(4, clear))
     if reads:
         out.append(read(5))
